@@ -1,4 +1,5 @@
 import EncodingRs.Lemmas.RoundTripAll
+import EncodingRs.Lemmas.WithNeed
 /-!
 # C12 — encoder output is valid text of the target encoding and decodes back to the input
 
@@ -28,7 +29,7 @@ regenerated tables (`Lemmas/RT/*.lean`, 39 uses).
 -/
 namespace EncodingRs.Thm.C12
 open EncodingRs EncodingRs.Model EncodingRs.Lemmas.Core EncodingRs.Lemmas.EncCore
-open EncodingRs.Lemmas.RoundTrip EncodingRs.Lemmas.FamLaws
+open EncodingRs.Lemmas.RoundTrip EncodingRs.Lemmas.FamLaws EncodingRs.Lemmas.WithNeed
 
 /-- `v` is the variant of one of the encodings of lib.rs -/
 def IsEnc (v : Gen.Variant) : Prop := v ∈ Gen.encodings.map (·.variant)
@@ -152,23 +153,6 @@ theorem sb_mem (t a b l : Nat) (hv : IsEnc (.singleByte t a b l)) : (t, a, b, l)
   exact List.mem_filterMap.mpr ⟨e, he, by rw [hev']⟩
 
 /-! `utf8EFam` is `statelessEFam utf8EncodeChar 4` with an exact `need` (C07); `RT` does not look at `need`. -/
-
-@[reducible] def withNeed (E : EFam) (n : E.σ → Nat → Nat) : EFam := { E with need := n }
-
-theorem processChar_withNeed (E : EFam) (n : E.σ → Nat → Nat) : ∀ (fuel : Nat) (s : E.σ) (c : Nat) (acc : List Nat),
-    processChar (withNeed E n) fuel s c .unlimited acc = processChar E fuel s c .unlimited acc := by
-  intro fuel
-  induction fuel with
-  | zero => intro s c acc; rfl
-  | succ fuel ih =>
-    intro s c acc
-    simp only [processChar, Budget.isZero, Bool.false_eq_true, if_false, Budget.dec]
-    show (match (E.step s c).unmappable with
-      | some u => CharRes.unmappable (E.step s c).st (acc ++ (E.step s c).out) u
-      | none => if (E.step s c).unread = true then processChar (withNeed E n) fuel (E.step s c).st c .unlimited (acc ++ (E.step s c).out)
-          else CharRes.done (E.step s c).st (acc ++ (E.step s c).out) .unlimited) = _
-    rw [ih]
-    rfl
 
 theorem erefOpen_withNeed (E : EFam) (n : E.σ → Nat → Nat) : ∀ (p : List Nat) (s : E.σ),
     erefOpen (withNeed E n) s p = erefOpen E s p := by
